@@ -26,6 +26,10 @@ def main(args):
         if not os.path.isfile(meta_path) or (only and name not in only):
             continue
         meta = json.load(open(meta_path))
+        if meta.get("retired"):
+            results[name] = {"property": meta["property"], "status": "retired", "detail": meta["retired"]}
+            print(f"[sensitivity] {name}: retired")
+            continue
         prop = meta["property"]
         scratch = tempfile.mkdtemp(prefix=f"xsdata-verif-{name}-", dir=base)
         t0 = time.time()
